@@ -246,7 +246,7 @@ def handleP (st : Stats) (f : List String) : IO Stats := do
       if prcS == "1" then
         st := st.bump "P_nocomment_checked"
         if !(arc2S == arcS && got2S == gotS) then
-          st ← oracleFail st s!"kind=Pcomments in={sh} n={nS} tokens={toksS} addrlist_rc={arcS} got={gotS} without_comments_rc={arc2S} got={got2S}"
+          st ← oracleFail st s!"kind=Pcomments in={sh} n={nS} tokens={toksS} addrlist_rc={arcS} got={gotS} without_comments_rc={arc2S} without_comments_got={got2S}"
       -- oracle (5): on a generated RFC 822 list the callback sees exactly the listed mailboxes (right to left)
       if eS != "X" then
         match mboxesOfStr (if eS == "-" then "" else eS), gotOfStr gotS with
